@@ -169,6 +169,11 @@ def _child_main(conn, payload):
             pass
     finally:
         conn.close()
+        try:
+            from . import configs
+            configs.cleanup_tmp()
+        except Exception:
+            pass
         os._exit(0)
 
 
